@@ -525,7 +525,12 @@ func (i *IniParser) parse(ini *ini) error {
 		for _, inival := range section {
 			var opt *Option
 
+			// An entry without a name cannot name an option
 			for _, group := range groups {
+				if len(inival.Name) == 0 {
+					break
+				}
+
 				opt = group.optionByName(inival.Name, func(o *Option, n string) bool {
 					return strings.ToLower(o.tag.Get("ini-name")) == strings.ToLower(n)
 				})
